@@ -45,6 +45,15 @@ NoProp  == [round |-> 0, value |-> None, from |-> 0]
 AllVals == Values \cup BadValues
 Leader(r) == ((LeaderOffset + r - 1) % N) + 1
 ValueOK(v) == v \in Values \/ Weaken = "noValueCheck"
+(* The value check is the OPERATOR'S OWN (ValueCheckF, e.g. its slashing protection): a value may pass at some correct
+   operators and fail at others.  LocalBad[i] = values of `Values` that fail at operator i only; the default is
+   "nobody differs" and configs override it (LocalBad <- ...).  `prep` says whether the proposal re-proposes a
+   prepared value; Weaken = "noValueCheckOnReproposal" checks only freely chosen values. *)
+LocalBad == [i \in Ops |-> {}]
+LocalOK(i, r, v, prep) ==
+    \/ v \notin LocalBad[i]
+    \/ Weaken = "noValueCheck"
+    \/ (Weaken = "noValueCheckOnReproposal" /\ r # 1 /\ prep)
 
 VARIABLES st, sent, byzUsed, act
 vars == <<st, sent, byzUsed, act>>
@@ -161,12 +170,14 @@ RecvProposal(i) ==
     \E m \in sent :
         /\ m.type = "proposal"
         /\ Justified(m.rcj, m.pj, m.pjpr, m.pjpv, m.round, m.value)
+        /\ LocalOK(i, m.round, m.value, \E rc \in m.rcj : rc.pr # 0)
         /\ DoProposal(i, m.signer, m.round, m.value) /\ NoByz
         /\ act' = [name |-> "RecvProposal", to |-> i, from |-> m.signer, round |-> m.round, value |-> m.value]
 
 RecvByzProposal(i) ==
     \E s \in Byz, r \in Rounds, v \in AllVals :
         /\ ByzJustifiable(r, v)
+        /\ LocalOK(i, r, v, r # 1)
         /\ DoProposal(i, s, r, v) /\ UseByz("proposal")
         /\ act' = [name |-> "RecvByzProposal", to |-> i, from |-> s, round |-> r, value |-> v]
 
@@ -244,6 +255,13 @@ RecvForgedDecided(i) ==
         /\ UseByz("decided")
         /\ IF Weaken = "decided:" \o k /\ ~n.decided
            THEN Apply(i, [n EXCEPT !.decided = TRUE, !.dval = v, !.round = r, !.dround = r, !.cround = r, !.cval = v, !.dsigners = Byz], {})
+           ELSE IF /\ Weaken = "decidedLate:valueNotRoot" /\ k = "valueNotRoot"
+                   \* the data-vs-root check is made only for the FIRST certificate of a height: a larger genuine
+                   \* certificate for the decided round and value, with its full data replaced, is stored and reported
+                   /\ n.decided /\ v = n.dval /\ r = n.cround
+                   /\ Card(n.dsigners) < Card(Byz \cup {s \in Honest : CommSent(s, r, v)})
+           THEN Apply(i, [n EXCEPT !.cval = CHOOSE b \in BadValues : TRUE,
+                                   !.dsigners = Byz \cup {s \in Honest : CommSent(s, r, v)}], {})
            ELSE UNCHANGED <<st, sent>>
         /\ act' = [name |-> "RecvForgedDecided", to |-> i, round |-> r, value |-> v, kind |-> k]
 
@@ -281,6 +299,7 @@ DoRC(i, m) ==
            valFor(x) == IF x.pr # 0 THEN m.pv ELSE StartValue[i]
            cands   == {x \in rcs : /\ valFor(x) # None
                                    /\ Justified(rcs, x.js, x.pr, x.pv, r, valFor(x))
+                                   /\ LocalOK(i, r, valFor(x), x.pr # 0)
                                    /\ (Leader(r) = i \/ Weaken = "noLeaderCheckOnPropose") /\ roundOK}
            higher  == {x \in newC : x.round > n.round}
            n1      == [n EXCEPT !.rc = newC]
@@ -371,7 +390,9 @@ CertValid == \A i \in Honest : st[i].decided =>
 (* ... and, when decided locally, the decided proposal came from the legitimate leader of its round *)
 LocalDecisionFromLeader == \A i \in Honest : (st[i].decided /\ st[i].dlocal) => st[i].dfrom = Leader(st[i].dround)
 (* an honest operator only ever commits to a value that passed its value check *)
-CommittedValuesChecked == \A m \in sent : m.type \in {"prepare", "commit"} => m.value \in Values
+CommittedValuesChecked == \A m \in sent : m.type \in {"prepare", "commit"} => (m.value \in Values /\ m.value \notin LocalBad[m.signer])
+(* ... and a locally reached decision is on a value that passed the operator's OWN check *)
+LocalDecisionChecked == \A i \in Honest : (st[i].decided /\ st[i].dlocal) => (st[i].dval \in Values /\ st[i].dval \notin LocalBad[i])
 (* C07 (3): the timeout step *)
 TimeoutStep == [][\A i \in Honest : (act'.name = "Timeout" /\ act'.to = i) =>
                      /\ st'[i].round = st[i].round + 1 /\ st'[i].acc = NoProp
